@@ -11,6 +11,7 @@ from typing import Dict, Set
 from ..accept import accept_set
 from ..model import AnalysisError
 from ..nodes import DESER_MOD
+from ..pathcond import path_condition as _pc
 from ..util import dotted, norm, short, walk_no_nested
 from ..visitors import called_hooks, classify_impl, totality
 
@@ -270,6 +271,54 @@ def schema_source_rule(ctx):
                 p = parents.get(p)
             ctx.check(guarded, "C06.R8", f"{fi.qualname}:origin-guard", n, "the schema of the generic origin is consulted without the `get_args(tp)` guard its sibling uses", fi, n, detail="if get_args(tp)")
 
+    # ---------------- R10: literal / enum schema
+    ctx.rule("C06.R10", "Literal / Enum schema: `const` for exactly one value, `enum` with every value otherwise, `type` from the JSON types of the values", floor=3)
+    lit = model.func(f"{SBB}.literal")
+    pm10 = {c: p for p in ast.walk(lit.node) for c in ast.iter_child_nodes(p)}
+    from ..boolx import BoolEval as _BE, Unknown as _Unk
+    from ..pathcond import complements as _compl
+    ev10 = _BE(_compl({"len(values) == 1": "single", "values": "nonempty", "not values": "!nonempty"}))
+    seen10 = set()
+    for r in ast.walk(lit.node):
+        if not (isinstance(r, ast.Return) and isinstance(r.value, ast.Call) and dotted(r.value.func) == "json_schema"):
+            continue
+        kws = {k.arg: k.value for k in r.value.keywords}
+        try:
+            got = ev10.compile(_pc(lit.node, r, pm10))
+        except _Unk as err:
+            ctx.undecided("C06.R10", f"{lit.qualname}: {err}")
+            continue
+        for kw, want_single, arg in (("const", True, "values[0]"), ("enum", False, "values")):
+            if kw in kws:
+                seen10.add(kw)
+                ok = all(bool(got({"single": sv, "nonempty": True})) == (sv == want_single) for sv in (False, True)) and norm(kws[kw]) == arg
+                ctx.check(ok, "C06.R10", f"{lit.qualname}:{kw}", r, f"`{short(r, 60)}`: `{kw}` must be emitted " + ("for exactly one value (const=values[0])" if want_single else "for several values, listing all of them (enum=values)") + ": the schema accepts other data than the deserializer", lit, r, detail=f"{kw}={arg} iff {'one value' if want_single else 'several values'}")
+        tk = kws.get("type")
+        ctx.check(tk is not None, "C06.R10", f"{lit.qualname}:type", r, "the literal schema has no `type`", lit, r, detail="type from the values", nontrivial=False)
+    ctx.check(seen10 == {"const", "enum"}, "C06.R10", f"{lit.qualname}:forms", lit.node.body[0], f"literal() no longer emits both forms (found {sorted(seen10)})", lit, lit.node, detail="const and enum")
+    ttxt = norm(lit.node)
+    ctx.check("JsonType.from_type(type(v)) for v in literal_values(values)" in ttxt, "C06.R10", f"{lit.qualname}:type-source", lit.node.body[0], "the `type` of a literal schema is not computed from the JSON types of its values", lit, lit.node, detail="JsonType.from_type(type(v)) over literal_values(values)")
+    # ---------------- R9: mapping keys
+    ctx.rule("C06.R9", "Mapping schema: every keyword of the key's schema is enforced on property names (the deserializer validates each key with the key type's method)", floor=2)
+    mp = model.func(f"{SBB}.mapping")
+    pm9 = {c: p for p in ast.walk(mp.node) for c in ast.iter_child_nodes(p)}
+    n9 = 0
+    for r in ast.walk(mp.node):
+        if not (isinstance(r, ast.Return) and isinstance(r.value, ast.Call) and dotted(r.value.func) == "json_schema"):
+            continue
+        kws = {k.arg: k.value for k in r.value.keywords}
+        cond = norm(_pc(mp.node, r, pm9))
+        n9 += 1
+        if "patternProperties" in kws:
+            closed = "propertyNames" in kws or (("additionalProperties" in kws) and norm(kws["additionalProperties"]) == "False")
+            ctx.check(closed, "C06.R9", f"{mp.qualname}:pattern-keys", r,
+                      "keys constrained by a pattern give `patternProperties` only: names that do not match the pattern stay valid for the schema (additionalProperties defaults to true) while deserialize rejects them", mp, r, detail="additionalProperties: false or propertyNames")
+        else:
+            exhaustive = any(f in cond.replace("'", '"') for f in ('key.keys() == {"type"}', 'key == {"type": "string"}', "len(key) == 1", 'set(key) == {"type"}')) or "propertyNames" in kws
+            ctx.check(exhaustive, "C06.R9", f"{mp.qualname}:other-key-keywords", r,
+                      "a key schema with keywords other than `type` / `pattern` (minLength, maxLength, enum of a Literal key, format) is reduced to a bare `additionalProperties`: the schema accepts any property name while deserialize validates each key", mp, r, detail="only for key == {type: string}, else propertyNames")
+    ctx.require(n9 >= 2, "SchemaBuilder.mapping: return sites not recognised")
+
 
 def keyword_filter_rule(ctx):
     model = ctx.model
@@ -331,6 +380,8 @@ def mutants(mb):
     mb.add_text("field-constraints-dropped", D, "            self.visit_with_conv(f.type, f.deserialization).merge(\n                get_constraints(f.schema), f.validators\n            )", "            self.visit_with_conv(f.type, f.deserialization)", "C06.R8", "field")
     mb.add_text("neg-nullable-guard-rewritten", J, "            and not any(\"const\" in res or \"enum\" in res for res in results)\n", "            and all(\"const\" not in res and \"enum\" not in res for res in results)\n", negative=True)
     mb.add_text("neg-origin-merge-local", D, "            if get_args(tp):\n                factory = factory.merge(\n                    get_constraints(get_schema(get_origin(tp))),\n                    get_validators(get_origin(tp)),\n                )\n", "            if get_args(tp):\n                origin = get_origin(tp)\n                factory = factory.merge(\n                    get_constraints(get_schema(get_origin(tp))),\n                    get_validators(origin),\n                )\n", negative=True)
+    mb.add_text("literal-single-flipped", J, "        if len(values) == 1:\n            return json_schema(type=type_, const=values[0])", "        if len(values) != 1:\n            return json_schema(type=type_, const=values[0])", "C06.R10", "literal")
+    mb.add_text("literal-enum-truncated", J, "            return json_schema(type=type_, enum=values)", "            return json_schema(type=type_, enum=values[1:])", "C06.R10", "literal:enum")
     mb.add_text("aggregate-order", J, "            if field.flattened:\n                self._object_schema(cls, field)  # check the field is an object", "            if False:\n                self._object_schema(cls, field)  # check the field is an object", "C06.R5", "aggregate")
     mb.add_text("mapping-any-keys", J, "        if \"type\" not in key or key[\"type\"] != JsonType.STRING:\n            raise ValueError(\"Mapping types must have string-convertible keys\")\n", "", "C06.R4", "mapping")
     mb.add_text("schema-hook-missing", J, "    def any(self) -> JsonSchema:\n        return JsonSchema()\n", "", "C06.R1", "any")
